@@ -800,6 +800,7 @@ func (fr *Frame) ret(x *ssa.Return, st *State, g string) {
 		}
 		fr.applyHints("return", "", x.Block(), st, g, res)
 		fr.checkFrame(st, g, "return", x.Pos(), nil)
+		fr.checkDeleteOnly(st, g, x) // `modifies m[-]` (ext_c24.go)
 		env := fr.specEnv(st, fr.entry)
 		fr.bindResults(env, res)
 		for i, cl := range fr.spec.Ensures {
